@@ -343,8 +343,10 @@ static char * correct_dimension_units(char * original) {
 		result[i] = tolower(result[i]);
 	}
 
-	if (strstr(&result[strlen(result) - 2], "px")) {
-		result[strlen(result) - 2] = '\0';
+	size_t len = strlen(result);
+
+	if ((len >= 2) && strstr(&result[len - 2], "px")) {
+		result[len - 2] = '\0';
 		strcat(result, "pt");
 	}
 
@@ -384,7 +386,7 @@ void mmd_export_image_latex(DString * out, const char * source, token * text, li
 
 		if (width) {
 			// Width specified
-			if (width[strlen(width) - 1] == '%') {
+			if ((width[0] != '\0') && (width[strlen(width) - 1] == '%')) {
 				// specified as percent
 				width[strlen(width) - 1] = '\0';
 				temp_float = strtod(width, NULL);
@@ -402,7 +404,7 @@ void mmd_export_image_latex(DString * out, const char * source, token * text, li
 
 		if (height) {
 			// Height specified
-			if (height[strlen(height) - 1] == '%') {
+			if ((height[0] != '\0') && (height[strlen(height) - 1] == '%')) {
 				// specified as percent
 				height[strlen(height) - 1] = '\0';
 				temp_float = strtod(height, NULL);
